@@ -274,6 +274,25 @@ def solver_cache_obligations(P):
                                   detail=None if keyed else "%s reaches the returned fields but no atom of it reaches cache.get" % pname, key={"param": pname, "analytic": analytic}))
             else:
                 obs.append(Ob("R-KEY-COMPLETE", site, "%s does not reach the result (analytic=%s)" % (pname, analytic), "holds", nontrivial=False))
+    # what is handed over as `extra` is hashed through its text (repr): plain numbers, strings, booleans and lists / tuples of
+    # them print exactly; an ndarray does not - its repr abbreviates arrays of more than 1000 entries and prints 8 digits
+    def arrays_in(v, path="extra"):
+        out = []
+        if isinstance(v, Arr):
+            out.append(path)
+        elif isinstance(v, Tup):
+            names = getattr(v, "fields", None)
+            for k, x in enumerate(v.items):
+                out.extend(arrays_in(x[1] if isinstance(x, tuple) else x, "%s.%s" % (path, names[k]) if names else "%s[%d]" % (path, k)))
+        return out
+
+    arr_extra = []
+    for args, kw, _ in base.get_calls:
+        if "extra" in kw:
+            arr_extra.extend(arrays_in(kw["extra"]))
+    obs.append(req_ob("R-KEY-COMPLETE", site, "the extra key material consists of plain values (numbers, strings, lists of them): an ndarray in it would be hashed through its abbreviated, rounded text",
+                      not arr_extra, detail="ndarray at %s" % ", ".join(sorted(set(arr_extra))[:3]) if arr_extra else None, key={"clause": "extra-plain"}))
+
     # flags: the key material must differ whenever a flag that changes the result differs
     def keysig(run):
         return {(tuple(sig(a) for a in args), tuple(sorted((k, sig(v)) for k, v in kw.items()))) for args, kw, _ in run.get_calls}
